@@ -53,6 +53,23 @@ def _lstat(path, *a, **k):
 
 
 os.stat, os.lstat = _stat, _lstat
+_real_getcwd = os.getcwd
+
+
+def _getcwd():
+    # the working directory of the host process is host state: a handler that consults it (e.g. through
+    # Path.absolute() / resolve()) derives file names from the host
+    if _MON["on"]:
+        f = sys._getframe(1)
+        while f is not None:
+            if f.f_globals.get("__name__", "").startswith("cfdppy"):
+                _MON["hits"].append(("os.getcwd", f.f_globals["__name__"]))
+                break
+            f = f.f_back
+    return _real_getcwd()
+
+
+os.getcwd = _getcwd
 
 
 class Monitor:
@@ -94,6 +111,33 @@ def h_transfer(ctx, M, K):
         ctx.covered("in_memory_success")
         ctx.prop("in_memory_transfer_identical", sysm.identical(x),
                  lambda: {"sig": "in-memory transfer result differs from the source"})
+
+
+def h_relative_names(ctx):
+    """relative file names: the filestores are asked about exactly the names the user gave"""
+    w = World(ctx, injective=True, nonzero_source=True)
+    x = ctx.int("x", 0, 2**16)
+    w.witness = x
+    mode = ctx.pick("mode", [ACK, UNACK])
+    names = ("outbox/file.bin", "inbox/copy.bin")
+    with Monitor():
+        sysm = hsys.System(ctx, w, mode=mode, closure=bool(ctx.choice("closure", 2)), S=ctx.int("S", 0, 64),
+                           seg_len=32, max_packet_len=64, src_name=names[0], dst_name=names[1])
+        o = sysm.start()
+        done = sysm.run(14)
+    if sysm.exceptions:
+        name = type(sysm.exceptions[0][1].exc).__name__
+        if name in ("SourceFileDoesNotExist", "FileNotFoundError"):
+            ctx.prop("no_host_file_access", False, lambda: {"sig": f"handler fails without host file: {name}"})
+        ctx.end("other", f"C10:{rigs.exc_sig(sysm.exceptions[0][1].exc)}")
+    verdict(ctx, w, "relative names")
+    asked = {c[1] for fs in (sysm.src.fs, sysm.dst.fs) for c in fs.calls if len(c) > 1 and isinstance(c[1], str)}
+    ctx.prop("filestore_asked_only_about_named_paths", asked <= set(names),
+             lambda: {"sig": f"filestore asked about {sorted(asked - set(names))}"})
+    ctx.prop("relative_transfer_completes", done, lambda: {"sig": "transfer with relative names did not complete"})
+    ctx.prop("in_memory_transfer_identical", sysm.identical(x, names[1]),
+             lambda: {"sig": "file is not under the requested (relative) name"})
+    ctx.covered("relative_names")
 
 
 def h_retransmit_and_cancel(ctx, mode):
@@ -347,11 +391,13 @@ def plan(tier):
     for mode in ("ack", "unack"):
         specs.append(Spec(f"retransmit-and-cancel/{mode}", "vf.harness.c16:h_retransmit_and_cancel", {"mode": mode},
                           twin_share=0.2, obligations=["cancel_checksum"]))
+    specs.append(Spec("transfer/relative-names", "vf.harness.c16:h_relative_names", {}, twin_share=0.2,
+                      obligations=["relative_names"]))
     return specs
 
 
 BOUNDS = {
-    "quick": "closed-loop transfers of C02/C03 shape over purely in-memory filestores whose paths (/src/..., /dst/...) do not exist on the host: M=2 fault-free (both modes, closure, CRC-32 and modular checksum, NAK modes, three destination shapes) and M=1 with one link fault; sender scenario with NAK retransmission (symbolic request) and cancel request (prefix checksum) in both modes; receiver alone on every sequence of N=4 events incl. cancel request / EOF(cancel) with disposition on cancellation on and off",
+    "quick": "closed-loop transfers of C02/C03 shape over purely in-memory filestores whose paths (/src/..., /dst/...) do not exist on the host: M=2 fault-free (both modes, closure, CRC-32 and modular checksum, NAK modes, three destination shapes) and M=1 with one link fault; sender scenario with NAK retransmission (symbolic request) and cancel request (prefix checksum) in both modes; receiver alone on every sequence of N=4 events incl. cancel request / EOF(cancel) with disposition on cancellation on and off; a fault-free transfer with RELATIVE source and destination names (the filestores must be asked about exactly those names; os.getcwd called from cfdppy code counts as host access)",
     "thorough": "adds M=2/K=1 and M=1/K=2",
 }
 OUTSIDE = "the sentence 'behaves exactly like the same transfer on the native filestore' is checked by CONCRETE validation only (seeded transfers run on both filestores and compared; not a solver result); host access routes that raise no audit event and bypass os.stat/Path/open"
